@@ -96,11 +96,14 @@ pub struct ReqOpts {
     /// put the first payload chunk into the header frame (2022 variable header / legacy first chunk)
     pub first_in_header: bool,
     pub udp_cmd: bool,
+    /// classic Shadowsocks: the target address is spread over the first two chunks, cut after this many of its bytes
+    /// (0 = the whole address sits in the first chunk). The request is a byte stream: any chunking is a valid one.
+    pub legacy_addr_split: usize,
 }
 
 impl ReqOpts {
     pub fn new(now: u64) -> ReqOpts {
-        ReqOpts { now, ts_delta: 0, typ: 0, vmess_opt: 0x1d, vmess_hdr_pad: 0, ss22_pad: 0, first_in_header: true, udp_cmd: false }
+        ReqOpts { now, ts_delta: 0, typ: 0, vmess_opt: 0x1d, vmess_hdr_pad: 0, ss22_pad: 0, first_in_header: true, udp_cmd: false, legacy_addr_split: 0 }
     }
 }
 
@@ -141,21 +144,27 @@ pub fn ref_client_request_with_keys(cred: &Cred, k: &RefKeys, addr: &Addr, chunk
         Proto::SsLegacy(l) => {
             let a = addr.socks();
             let mut cs = rechunk(chunks, 0x3FFF - a.len());
-            let mut first = a.clone();
+            let split = o.legacy_addr_split.min(a.len() - 1);
+            let mut first = a[split..].to_vec();
             if o.first_in_header && !cs.is_empty() {
                 first.extend(cs.remove(0));
             }
-            let mut all = vec![first];
+            let mut all = if split > 0 { vec![a[..split].to_vec(), first] } else { vec![first] };
             all.extend(rechunk(&cs, 0x3FFF));
             let salt = d.bytes(l.key_len());
             let wire = ss::encode_stream(l, &k.legacy_key, &salt, &all);
             let dec = ss::decode_stream(l, &k.legacy_key, &wire, true)?;
             let mut units = dec.units.clone();
-            // the address bytes inside the first chunk are not application payload
-            if let Some(u) = units.iter_mut().find(|u| u.kind == "payload") {
-                u.app_bytes -= a.len();
+            // the address bytes inside the first chunk(s) are not application payload
+            let mut left = [split, a.len() - split];
+            if split == 0 {
+                left = [a.len(), 0];
             }
-            let header_end = units.iter().find(|u| u.kind == "payload").map(|u| u.end).unwrap_or(wire.len());
+            let mut header_end = wire.len();
+            for (i, u) in units.iter_mut().filter(|u| u.kind == "payload").take(if split > 0 { 2 } else { 1 }).enumerate() {
+                u.app_bytes -= left[i];
+                header_end = u.end;
+            }
             Ok(Frames { frame_ends: ends_from_units(&units, 0), wire, units, session: SessionInfo::None, unauth: vec![], header_end })
         }
         Proto::Ss22(c) => {
